@@ -185,10 +185,20 @@ sys.exit(1)
 
 
 def _run_ch(pid: str, ob: Ob):
-    res = _run_crosshair(f"{ob.module}.{ob.func}", ob.timeout, ob.path_timeout, ob.plugin)
+    pt = ob.path_timeout or max(30.0, ob.timeout ** 0.5)
+    res = _run_crosshair(f"{ob.module}.{ob.func}", ob.timeout, pt, ob.plugin)
+    attempts = 1
+    while res["verdict"] == "inconclusive" and attempts < 3:
+        # "Confirmed" is sound whenever it is reached; a path that hit the per-path solver budget on a
+        # loaded machine is retried with a larger budget before the obligation is declared inconclusive.
+        attempts += 1
+        res2 = _run_crosshair(f"{ob.module}.{ob.func}", ob.timeout * 2, pt * 2, ob.plugin)
+        res2["paths"] = max(res2["paths"], 0)
+        res2["wall"] += res["wall"]
+        res = res2
     r = dict(name=ob.name, kind="ch", engine=ob.engine, verdict=res["verdict"], detail=res["msg"], paths=res["paths"],
              wall_s=round(res["wall"], 2), bounds=ob.bounds, functions=list(ob.functions), queries=0,
-             solver_s=None, exhaustive=ob.exhaustive, known=ob.known)
+             solver_s=None, exhaustive=ob.exhaustive, known=ob.known, attempts=attempts)
     if res["verdict"] == "counterexample":
         ok, path, detail = _replay_ch(pid, ob, res["msg"])
         r["replay"] = path
@@ -203,7 +213,7 @@ def _run_ch(pid: str, ob: Ob):
         r["verdict"] = "inconclusive"
     if ob.twin:
         twin = _make_twin(ob.module)
-        tw = _run_crosshair(f"{twin}.{ob.func}", min(ob.timeout, 120), ob.path_timeout, ob.plugin, verbose=False)
+        tw = _run_crosshair(f"{twin}.{ob.func}", min(ob.timeout, 120), pt, ob.plugin, verbose=False)
         r["twin_wall_s"] = round(tw["wall"], 2)
         if tw["verdict"] == "counterexample":
             m = _CALL.search(tw["msg"])
